@@ -44,21 +44,21 @@ Definition ex_clocks : list clock :=
 (* pin(clkA) -> reg(clk2) -> marker(clkA -> clkB) -> reg(clkB) -> pin(clkB) *)
 Definition ex_marked : netlist :=
   mkNetlist
-    [ mkNode KPin 0 [None] 1 [Some 0];
-      mkNode KReg 1 [Some (0, 0); None; None]%N 1 [Some 2];
-      mkNode KCdc 2 [Some (1, 0)]%N 1 [Some 0; Some 1];
-      mkNode KReg 3 [Some (2, 0); None; None]%N 1 [Some 1];
-      mkNode KPin 4 [Some (3, 0)]%N 1 [Some 1] ]
+    [ mkNode KPin 0 [None] 1 [Some 0] [] [];
+      mkNode KReg 1 [Some (0, 0); None; None]%N 1 [Some 2] [] [];
+      mkNode KCdc 2 [Some (1, 0)]%N 1 [Some 0; Some 1] [] [];
+      mkNode KReg 3 [Some (2, 0); None; None]%N 1 [Some 1] [] [];
+      mkNode KPin 4 [Some (3, 0)]%N 1 [Some 1] [] [] ]
     ex_clocks.
 
 (* the same with the second register reading the first one directly *)
 Definition ex_unmarked : netlist :=
   mkNetlist
-    [ mkNode KPin 0 [None] 1 [Some 0];
-      mkNode KReg 1 [Some (0, 0); None; None]%N 1 [Some 2];
-      mkNode KCdc 2 [Some (1, 0)]%N 1 [Some 0; Some 1];
-      mkNode KReg 3 [Some (1, 0); None; None]%N 1 [Some 1];
-      mkNode KPin 4 [Some (3, 0)]%N 1 [Some 1] ]
+    [ mkNode KPin 0 [None] 1 [Some 0] [] [];
+      mkNode KReg 1 [Some (0, 0); None; None]%N 1 [Some 2] [] [];
+      mkNode KCdc 2 [Some (1, 0)]%N 1 [Some 0; Some 1] [] [];
+      mkNode KReg 3 [Some (1, 0); None; None]%N 1 [Some 1] [] [];
+      mkNode KPin 4 [Some (3, 0)]%N 1 [Some 1] [] [] ]
     ex_clocks.
 
 Example ex_pin_source : pin_source ex_marked 2 = 0 /\ pin_source ex_marked 1 = 1.
@@ -105,7 +105,7 @@ Proof. apply (spec_verdict_exact ex_unmarked); vm_compute; reflexivity. Qed.
 (* the influence relation is inhabited: clkA's derived clock reaches the marker's input *)
 Example ex_influence : influences ex_marked (SrcClk 2) (1, 0)%N.
 Proof.
-  apply (infl_src ex_marked (1, 0)%N (mkNode KReg 1 [Some (0, 0); None; None]%N 1 [Some 2]) [0; 1; 2] (Some 2) []);
+  apply (infl_src ex_marked (1, 0)%N (mkNode KReg 1 [Some (0, 0); None; None]%N 1 [Some 2] [] []) [0; 1; 2] (Some 2) []);
     vm_compute; auto.
 Qed.
 
@@ -118,8 +118,8 @@ Proof. split; [apply Permutation_sym, Permutation_rev | vm_compute; reflexivity]
 (* clocks with the same pin source are interchangeable in the rule: the derived clock 2 may stand for
    clkA in a register's inputs *)
 Example ex_same_source :
-  check_valid (pin_source ex_marked) (mkNode KReg 9 [] 1 [Some 0]) [SClock 2; SConst; SClock 0] = true
-  /\ check_valid (pin_source ex_marked) (mkNode KReg 9 [] 1 [Some 0]) [SClock 1; SConst; SClock 0] = false.
+  check_valid (pin_source ex_marked) (mkNode KReg 9 [] 1 [Some 0] [] []) [SClock 2; SConst; SClock 0] = true
+  /\ check_valid (pin_source ex_marked) (mkNode KReg 9 [] 1 [Some 0] [] []) [SClock 1; SConst; SClock 0] = false.
 Proof. vm_compute. auto. Qed.
 
 (* ------------------------------------------------------------------ *)
@@ -134,21 +134,21 @@ Definition drv_clocks (selfsim selfexp : bool) : list clock :=
 (* pin(clkA) ; export-override(-, pin) -> signal2clk(clk1) ; reg(clk1) reads the pin ; pin(clk1) *)
 Definition drv_unmarked (selfsim selfexp : bool) : netlist :=
   mkNetlist
-    [ mkNode KPin 0 [None] 1 [Some 0];
-      mkNode KOther 1 [None; Some (0, 0)]%N 1 [];
-      mkNode KSig2Clk 2 [Some (1, 0)]%N 0 [Some 1];
-      mkNode KReg 3 [Some (0, 0); None; None]%N 1 [Some 1];
-      mkNode KPin 4 [Some (3, 0)]%N 1 [Some 1] ]
+    [ mkNode KPin 0 [None] 1 [Some 0] [] [];
+      mkNode KOther 1 [None; Some (0, 0)]%N 1 [] [] [];
+      mkNode KSig2Clk 2 [Some (1, 0)]%N 0 [Some 1] [] [];
+      mkNode KReg 3 [Some (0, 0); None; None]%N 1 [Some 1] [] [];
+      mkNode KPin 4 [Some (3, 0)]%N 1 [Some 1] [] [] ]
     (drv_clocks selfsim selfexp).
 
 Definition drv_marked (selfsim selfexp : bool) : netlist :=
   mkNetlist
-    [ mkNode KPin 0 [None] 1 [Some 0];
-      mkNode KOther 1 [None; Some (0, 0)]%N 1 [];
-      mkNode KSig2Clk 2 [Some (1, 0)]%N 0 [Some 1];
-      mkNode KCdc 3 [Some (0, 0)]%N 1 [Some 0; Some 1];
-      mkNode KReg 4 [Some (3, 0); None; None]%N 1 [Some 1];
-      mkNode KPin 5 [Some (4, 0)]%N 1 [Some 1] ]
+    [ mkNode KPin 0 [None] 1 [Some 0] [] [];
+      mkNode KOther 1 [None; Some (0, 0)]%N 1 [] [] [];
+      mkNode KSig2Clk 2 [Some (1, 0)]%N 0 [Some 1] [] [];
+      mkNode KCdc 3 [Some (0, 0)]%N 1 [Some 0; Some 1] [] [];
+      mkNode KReg 4 [Some (3, 0); None; None]%N 1 [Some 1] [] [];
+      mkNode KPin 5 [Some (4, 0)]%N 1 [Some 1] [] [] ]
     (drv_clocks selfsim selfexp).
 
 Example drv_clocks_ok : clocks_ok (drv_clocks true false) = true /\ wf (drv_unmarked true false) = true.
@@ -179,3 +179,47 @@ Proof.
   - intro H. apply (spec_verdict_exact (drv_marked true false)) in H; [|vm_compute; reflexivity].
     vm_compute in H. discriminate.
 Qed.
+
+(* ------------------------------------------------------------------ *)
+(* external module with three input ports declared for clkA, clkB, clkA and one output on clkA.
+   In [ext_first_port] a clkB signal enters the FIRST port (declared clkA) while the later ports are
+   driven from their own domains; in [ext_clean] every port gets its own domain. *)
+
+Definition ext_clocks : list clock :=
+  [ mkClock None true true 0 100 1 true; mkClock None true true 1 300 1 true ].
+
+Definition ext_design (first : port) : netlist :=
+  mkNetlist
+    [ mkNode KPin 0 [None] 1 [Some 0] [] [];
+      mkNode KPin 1 [None] 1 [Some 1] [] [];
+      mkNode KExt 2 [Some first; Some (1, 0); Some (0, 0)]%N 1 [] [Some 0; Some 1; Some 0] [Some 0];
+      mkNode KPin 3 [Some (2, 0)]%N 1 [Some 0] [] [] ]
+    ext_clocks.
+
+Definition ext_first_port : netlist := ext_design (1, 0)%N.
+Definition ext_clean : netlist := ext_design (0, 0)%N.
+
+Example ext_wf : wf ext_first_port = true /\ wf ext_clean = true.
+Proof. vm_compute. auto. Qed.
+
+Example ext_verdicts :
+  flagged ext_first_port (infer_real ext_first_port) = [2%N]
+  /\ flagged ext_clean (infer_real ext_clean) = []
+  /\ domains_ok ext_first_port (infer_real ext_first_port) = true.
+Proof. vm_compute. repeat split; reflexivity. Qed.
+
+Example ext_crossing : has_crossing ext_first_port /\ ~ has_crossing ext_clean.
+Proof.
+  split.
+  - apply (spec_verdict_exact ext_first_port); vm_compute; reflexivity.
+  - intro H. apply (spec_verdict_exact ext_clean) in H; [|vm_compute; reflexivity].
+    vm_compute in H. discriminate.
+Qed.
+
+(* the rule on its own: a mismatch on the first port, an unknown on the middle port, all fine *)
+Example ext_rule :
+  let nd := mkNode KExt 2 [] 1 [] [Some 0; Some 1; Some 0] [Some 0] in
+  check_valid (pin_source ext_clean) nd [SClock 1; SClock 1; SClock 0] = false
+  /\ check_valid (pin_source ext_clean) nd [SClock 0; SUnknown; SClock 0] = false
+  /\ check_valid (pin_source ext_clean) nd [SClock 0; SConst; SClock 0] = true.
+Proof. vm_compute. auto. Qed.
